@@ -5,6 +5,7 @@ cd "$(dirname "$0")/.."
 # usage: tools/seeded_regress.sh [<extended regular expression on the change id>]
 for d in seeded/*/; do
   id=$(basename $d)
+  [ -f "$d/meta.json" ] || continue
   if [ -n "$1" ] && ! printf "%s" "$id" | grep -Eq "$1"; then continue; fi
   if python3 -c "import json,sys;sys.exit(0 if json.load(open('$d/meta.json')).get('status') in ('retired','missed') else 1)"; then echo "$id skipped: retired or known miss (see meta.json)"; continue; fi
   prop=$(python3 -c "import json;m=json.load(open('$d/meta.json'));print(m.get('check',m['property']))")
